@@ -66,6 +66,16 @@ func genC08(t *rapid.T) c08Case {
 				// the other supported way to write a property: as a fact
 				// (with an id of its own choosing, which is ignored)
 				x.Doc["asFact"] = true
+				// ... which may come with a deleteWith of its own (that
+				// does not name the target)
+				switch rapid.IntRange(0, 3).Draw(t, l+".owndw") {
+				case 1:
+					x.Doc["dw"] = A{}
+				case 2:
+					x.Doc["dw"] = A{"nobody"}
+				case 3:
+					x.Doc["dw"] = A{rapid.SampledFrom(c08Ids).Draw(t, l+".owndw.id")}
+				}
 			}
 			c.Ops = append(c.Ops, x)
 		}
@@ -144,7 +154,12 @@ func runC08(c c08Case) *vlib.Outcome {
 					p = "p"
 				}
 				if asFact, _ := x.Doc["asFact"].(bool); asFact {
-					if r := w.addFact("L", "", M{"id": x.Id, "!" + p: x.Doc["v"]}); r.Err != nil {
+					pf := M{"id": x.Id, "!" + p: x.Doc["v"]}
+					if dw, given := x.Doc["dw"]; given {
+						pf["deleteWith"] = dw
+						o.Label("property-fact-with-own-deleteWith")
+					}
+					if r := w.addFact("L", "", pf); r.Err != nil {
 						o.Fail("ADD_ERROR", "%s: AddFact of a property failed: %v", when, r.Err)
 					}
 					o.Label("property-written-as-fact")
